@@ -122,7 +122,8 @@ def confirm_by_replay_prefixed(run, family, module, tr, prefixes, sig, text, ext
             conf = group_conf
             tries = 3 if witness else 1
             repro = None
-            if j < 2 and budget > 0:
+            # every group is replayed at least once (its first member, whatever the budget says)
+            if j == 0 or (j < 2 and budget > 0):
                 budget -= 1
                 rp = os.path.join(run.work, "replay_%s_%s.json" % (family, case))
                 with open(rp, "w") as fh:
